@@ -239,6 +239,10 @@ ocp.set_der(v, a)
 
     def add_variables(self, stage, opti):
 
+        for g in ['control','control+','states']:
+            if len(stage.variables[g])>0:
+                raise Exception("SplineMethod does not support variables with grid='%s'" % g.replace('+',"' and include_last=True; '"))
+
         self.add_variables_V(stage, opti)
 
         assert not self.time_grid.localize_t0 and not self.time_grid.localize_T
